@@ -108,6 +108,14 @@ fn templates() -> Vec<E> {
         E::Un(Un::Neg, x.clone().b()),
         E::Un(Un::TypeOf, f.clone().b()),
         E::Un(Un::Tis, y.clone().b()),
+        // partial applications: of a host-provided value (never applied, whatever it is: no callback) and of an
+        // expression whose body consults the host
+        bin(Bin::Apply, g_(bin(Bin::Partial, f.clone(), E::Int(5))), E::Int(6)),
+        bin(Bin::ApplyTo, E::Int(6), g_(bin(Bin::Partial, f.clone(), x.clone()))),
+        E::Un(Un::EmptyApply, g_(bin(Bin::Partial, f.clone(), E::Int(5))).b()),
+        bin(Bin::Partial, f.clone(), x.clone()),
+        bin(Bin::Apply, g_(bin(Bin::Partial, E::Nested(bin(Bin::Apply, f.clone(), E::Input).b()), x.clone())), y.clone()),
+        E::Un(Un::EmptyApply, g_(bin(Bin::Partial, E::Nested(E::List(vec![x.clone(), E::Input]).b()), g.clone())).b()),
     ];
     v.into_iter().filter(|e| well_formed(e)).collect()
 }
